@@ -39,16 +39,32 @@ GROUPS = {
 }
 
 
+def anchor_modules(group):
+    import json
+    here = os.path.dirname(os.path.dirname(os.path.abspath(__file__)))
+    files = []
+    for ln in open(os.path.join(here, "properties.jsonl")):
+        p = json.loads(ln)
+        if p["id"] in group.split("+"):
+            files += [f for f in p["anchors"]["files"] if f.endswith(".py")]
+    return sorted(set(files))
+
+
 def main():
-    groups = sys.argv[1:] or list(GROUPS)
+    args = sys.argv[1:]
+    modules = "--modules" in args
+    args = [a for a in args if a != "--modules"]
+    groups = args or list(GROUPS)
     os.makedirs("/tmp/surv", exist_ok=True)
     here = os.path.dirname(os.path.dirname(os.path.abspath(__file__)))
-    for g in groups:
+    for g0 in groups:
+        g = g0 + ("m" if modules else "")
         sj = "/tmp/surv/%s.survey.json" % g
+        extra = (["--funcs"] + anchor_modules(g0)) if modules else []
         with open("/tmp/surv/%s.survey.txt" % g, "w") as fh:
-            subprocess.run(["/venv/bin/python", os.path.join(here, "sa/survey.py"), g, "--out", sj], stdout=fh,
+            subprocess.run(["/venv/bin/python", os.path.join(here, "sa/survey.py"), g0, "--out", sj] + extra, stdout=fh,
                            stderr=subprocess.STDOUT)
-        tests = [T % t for t in GROUPS[g].split()]
+        tests = [T % t for t in GROUPS[g0].split()]
         with open("/tmp/surv/%s.tests.txt" % g, "w") as fh:
             subprocess.run(["python3", os.path.join(here, "tools/survivor_tests.py"), sj, "--jobs",
                             os.environ.get("SURV_JOBS", "8"), "--out", "/tmp/surv/%s.tests.json" % g, "--tests"] + tests,
